@@ -62,7 +62,7 @@ Clauses(o) ==
       THEN (IF PlanSet(o) \in PlanSets(pre, fl) THEN {} ELSE {"planSet"})
         \cup (IF o.act.plan \in TopoOrders(pre, PlanSet(o)) THEN {} ELSE {"issuersFirst"})
         \cup (IF \A i \in DOMAIN o.act.plan :
-                    o.obs.changes[i] = IF pre.art[o.act.plan[i]].cert THEN "replace" ELSE "create"
+                    o.obs.changes[i] = IF pre.art[o.act.plan[i]].exists THEN "replace" ELSE "create"
               THEN {} ELSE {"changeType"})
       ELSE {})
   \cup
